@@ -221,6 +221,85 @@ class BV:
     def exits(self):
         return [i for i in self.reach0 if self.blocks[i]["t"]["k"] == "return"]
 
+    def sccs(self):
+        """Non-trivial strongly connected components (loops) of the pruned CFG."""
+        idx, low, onst, st, out, cnt = {}, {}, set(), [], [], [0]
+        for root in sorted(self.reach0):
+            if root in idx:
+                continue
+            work = [(root, iter(self.succ[root]))]
+            idx[root] = low[root] = cnt[0]
+            cnt[0] += 1
+            st.append(root)
+            onst.add(root)
+            while work:
+                v, it = work[-1]
+                adv = False
+                for w in it:
+                    if w not in idx:
+                        idx[w] = low[w] = cnt[0]
+                        cnt[0] += 1
+                        st.append(w)
+                        onst.add(w)
+                        work.append((w, iter(self.succ[w])))
+                        adv = True
+                        break
+                    elif w in onst:
+                        low[v] = min(low[v], idx[w])
+                if adv:
+                    continue
+                work.pop()
+                if work:
+                    low[work[-1][0]] = min(low[work[-1][0]], low[v])
+                if low[v] == idx[v]:
+                    comp = set()
+                    while True:
+                        x = st.pop()
+                        onst.discard(x)
+                        comp.add(x)
+                        if x == v:
+                            break
+                    if len(comp) > 1 or v in self.succ[v]:
+                        out.append(comp)
+        return out
+
+    def dominated_by_edge(self, block, edges):
+        """Is `block` unreachable from the entry once `edges` [(a, b)] are removed?"""
+        cut = set(edges)
+        seen = set()
+        st = [0]
+        while st:
+            a = st.pop()
+            if a in seen:
+                continue
+            seen.add(a)
+            for b in self.succ[a]:
+                if (a, b) not in cut and b not in seen:
+                    st.append(b)
+        return block not in seen
+
+    def bool_edges(self, pred):
+        """[(switch block, target, truth)] for boolean switches whose condition term satisfies pred."""
+        out = []
+        for bi in sorted(self.reach0):
+            t = self.blocks[bi]["t"]
+            if t["k"] != "switch" or self.switch_subject(bi) is not None:
+                continue
+            if self.crate.types[t["ot"]]["s"] != "bool":
+                continue
+            term = self.trace_op(t["o"])
+            flip = False
+            while term[0] == "unop" and term[1] == "Not":
+                term = term[2]
+                flip = not flip
+            if not pred(term):
+                continue
+            for b in self.succ[bi]:
+                for v in self.edge_label.get((bi, b), []):
+                    truth = (v != 0) if v != "otherwise" else True
+                    out.append((bi, b, truth != flip))
+        return out
+
     # ------------------------------------------------------------------ types
     def lty(self, l):
         return self.crate.types[self.locals[l]["t"]]
@@ -244,8 +323,27 @@ class BV:
         return out
 
     # ------------------------------------------------------------------ tracing
+    def promoted(self, i):
+        ps = getattr(self, "_promoted", None)
+        if ps is None:
+            ps = self._promoted = {}
+        if i not in ps:
+            pm = self.body.get("promoted", [])
+            if i >= len(pm):
+                ps[i] = None
+            else:
+                pb = {"id": "%s::promoted[%d]" % (self.id, i), "name": self.name + "::promoted", "mir": pm[i], "_crate": self.crate,
+                      "kind": "promoted", "sp": self.body["sp"], "promoted": []}
+                ps[i] = BV(pb)
+        return ps[i]
+
     def trace_op(self, o, seen=None, depth=0):
         if "k" in o:
+            k = o["k"]
+            if "promoted" in k and self.body.get("kind") != "promoted":
+                pv = self.promoted(k["promoted"])
+                if pv is not None:
+                    return pv.trace_local(0)
             return ("const", o["k"])
         pl = o.get("m") or o.get("c")
         return self.trace_place(pl, seen, depth)
